@@ -25,7 +25,7 @@ V = importlib.util.module_from_spec(_spec)
 _spec.loader.exec_module(V)
 JSON_TYPES = ["varint", "filesize", "unix_file_mode", "uint16", "uint32", "net.tcp.Port", "boolean", "float", "string", "wstring", "bytes", "datetime", "digest", "path", "uri", "net.ipaddress", "net.ipnetwork", "stringlist"]
 EXTRA = {"float": ["float('inf')", "-0.0", "5e-324"], "bytes": ["bytes(range(256))", "b'\\x00'"], "string": ["'\\ud800'", "'line\\nbreak \"q\"'"], "net.ipaddress": ["'2001:db8::1'", "'::ffff:1.2.3.4'", "'::1.2.3.4'", "'::1'"], "net.ipnetwork": ["'2001:db8::/32'", "'::ffff:10.0.0.0/104'"], "path": ["PurePosixPath('c:/evidence/pagefile.sys')", "PurePosixPath('\\\\\\\\host\\\\share\\\\f')", "PurePosixPath('C:\\\\Users\\\\x')"],
-         "digest": ["('D41D8CD98F00B204E9800998ECF8427E', None, None)", "(None, 'DA39A3EE5E6B4B0D3255bfef95601890afd80709', None)"]}
+         "digest": ["('D41D8CD98F00B204E9800998ECF8427E', None, None)", "(None, 'DA39A3EE5E6B4B0D3255bfef95601890afd80709', None)", "(b'd41d8cd98f00b204e9800998ecf8427e', None, None)"]}
 SKIP = {("path", "'c:\\\\x\\\\y'"), ("path", "PureWindowsPath('c:/q')")}  # the statement covers POSIX paths
 
 
